@@ -272,6 +272,38 @@ pub fn run(ctx: &Ctx) -> i32 {
                     let _ = emu.cpu.bus.write(a, (y >> 24) as u8);
                     stats.class("transition walk: stray write to an alias of a bus-controller register");
                 }
+                // the rest of the machine: "the cost depends only on the kind and on the settings of the area" - not on
+                // any other on-chip register (the bus controller's other registers at H'FEE024/25/27 and everything
+                // else in both register blocks), not on the levels at the port pins
+                if x % 53 == 11 {
+                    let y = sample(&mut runner, &any32);
+                    let v = (y >> 24) as u8;
+                    let v = if y & 0x10 != 0 { v } else { [0x01u8, 0x80, 0xff, 0xc7, 0x00][((y >> 5) % 5) as usize] };
+                    match y & 3 {
+                        0 => {
+                            let a = [0xfee024u32, 0xfee025, 0xfee027, 0xfee024][((y >> 8) % 4) as usize];
+                            let _ = guarded(|| emu.cpu.bus.write(a, v));
+                        }
+                        1 => {
+                            let a = 0xfee000 + (y >> 8) % 0x100;
+                            if !matches!(a, 0xfee020..=0xfee023 | 0xfee026) {
+                                let _ = guarded(|| emu.cpu.bus.write(a, v));
+                            }
+                        }
+                        2 => {
+                            // not the timer block: a running timer is harmless here (no time passes), but keep the walk simple
+                            let a = 0xffff20 + (y >> 8) % 0xca;
+                            if !(0xffff80..=0xffff99).contains(&a) {
+                                let _ = guarded(|| emu.cpu.bus.write(a, v));
+                            }
+                        }
+                        _ => {
+                            let p = 1 + ((y >> 8) % 11) as u8;
+                            let _ = guarded(|| emu.cpu.bus.write_port(p, v));
+                        }
+                    }
+                    stats.class("transition walk: another register or a port's pin levels changed (the cost must not follow)");
+                }
                 let ki = ((x >> 20) % 6) as usize;
                 let own = (x >> 24) & 1 == 1 && !matches!(KINDS[ki], Kind::L | Kind::M);
                 // a lookup somewhere else first (any area, on-chip RAM, I/O registers)
@@ -316,7 +348,7 @@ pub fn run(ctx: &Ctx) -> i32 {
     });
     let mut stats = stats;
     stats.exhaustive_subspaces.insert("area (0-7, on-chip RAM) x width x access-state x wait field x DRAM select x kind x count 1-5 x address x {calc_state, calc_state_with_addr}".into(), stats.nontrivial_keys.len() as u64);
-    let rule = "cases = for each of the eight areas and on-chip RAM: every value of the area's bus-width bit, access-state bit, wait field and the DRAM-area-select field (areas 3-5 only with select 0/1 - others are counted as skipped), all six cycle kinds, counts 1-5, the first / middle / last address of the area outside the on-chip I/O registers, through both calc_state (own-instruction address) and calc_state_with_addr - enumerated completely - each repeated under the all-zero, all-one and proptest-generated settings of all *other* areas' bits plus every one-bit flip of them (independence). Plus a transition walk per shard (300,000 quick / 5,000,000 thorough steps): every step changes at most one bus-controller register (written through Bus::write), then costs a cycle in the shard's area, with lookups anywhere else in the address space in between (history-dependent or late-following costs), and now and then a silent burst of 255-257 / 511-513 / 65535-65537 register writes without any lookup (change counters of 8 or 16 bits). Oracle = the cost rule of the statement written as a 10-line function. Non-trivial = every tuple (all differ from the 4 area-0 settings of the unit tests except those 4); distinct = the tuple.";
+    let rule = "cases = for each of the eight areas and on-chip RAM: every value of the area's bus-width bit, access-state bit, wait field and the DRAM-area-select field (areas 3-5 only with select 0/1 - others are counted as skipped), all six cycle kinds, counts 1-5, the first / middle / last address of the area outside the on-chip I/O registers, through both calc_state (own-instruction address) and calc_state_with_addr - enumerated completely - each repeated under the all-zero, all-one and proptest-generated settings of all *other* areas' bits plus every one-bit flip of them (independence). Plus a transition walk per shard (300,000 quick / 5,000,000 thorough steps): every step changes at most one bus-controller register (written through Bus::write), then costs a cycle in the shard's area, with lookups anywhere else in the address space in between (history-dependent or late-following costs), and now and then a silent burst of 255-257 / 511-513 / 65535-65537 register writes without any lookup (change counters of 8 or 16 bits), stray writes to aliases of the registers, and changes of the rest of the machine (the bus controller's other registers, any other on-chip register, the levels at the port pins) which no cost may follow. Oracle = the cost rule of the statement written as a 10-line function. Non-trivial = every tuple (all differ from the 4 area-0 settings of the unit tests except those 4); distinct = the tuple.";
     let mut extra = Map::new();
     extra.insert("exhaustive_over_own_area_tuples".into(), json!(true));
     extra.insert("independence_settings_per_tuple".into(), json!(nrand + 2));
